@@ -8,17 +8,26 @@ the running thread is about to execute the line with index s (s in the schedule)
 baton to the other thread and waits until it comes back.  T starts; a thread that finishes hands
 the baton over for good; a switch towards a finished thread is a no-op.
 
-`BatonLock` stands in for a `threading.Lock` (engine._lock): a blocked acquire hands the baton to
-the other thread instead of blocking the process, and takes the lock when the baton returns and the
-lock is free.  A lock that can never be obtained (owner finished / self re-acquire) is recorded as
-`deadlock` and the thread is unwound with a BaseException.
+Locks.  `BatonLock` / `BatonRLock` stand in for `threading.Lock` / `threading.RLock`: a blocked
+acquire hands the baton to the other thread instead of blocking the process, and takes the lock when
+the baton returns and the lock is free.  `patch_lock_factories(package)` replaces the names `Lock`,
+`RLock` and `threading` in every loaded module of the package under test, so that EVERY lock the
+code under test creates - also one added by a later change, e.g. inside a collaborator that is
+re-created during a run - is a baton lock (a real lock held by the parked thread would block the
+running thread for good).  A lock that can never be obtained (owner finished, self re-acquire of a
+non-reentrant lock, both threads waiting for each other) is recorded as `deadlock` and the waiting
+thread is unwound with a BaseException; the locks it holds are released so the other one can end.
 
-T runs on the calling thread (sys.settrace installed for the duration of the step and restored), R on
-a persistent daemon thread of the process, so one schedule costs one OS wake-up per baton hand-over.
+No wait is unbounded.  T and R run on two persistent daemon threads of the process; the calling
+thread only waits for the step, at most STEP_LIMIT_S seconds of real time.  If the step does not end
+(a thread blocks on something the scheduler does not model) `SchedulerHang` is raised, the two worker
+threads are abandoned (never reused) and fresh ones serve the next step.  `run_bounded(fn, limit)`
+runs any callable on a daemon thread with the same guarantee.
 
 Everything is deterministic: the schedule, not the OS, decides who runs.  The same functions and
 the same switch list always give the same interleaving (the event stream only depends on the code
-paths taken).  Nothing of this touches the code under test.
+paths taken; cyclic garbage collection is off while lines are counted).  Nothing of this touches
+the code under test.
 """
 from __future__ import annotations
 
@@ -26,51 +35,79 @@ import gc
 import os
 import sys
 import threading
+import types
 from typing import Any, Callable
 
 OTHER = {"T": "R", "R": "T"}
+_REAL_LOCK = threading.Lock
+_REAL_RLOCK = threading.RLock
 
 
 class SchedulerError(RuntimeError):
-    """internal problem of the scheduler (hang, exception escaping a worker function) - a harness error"""
+    """internal problem of the scheduler (exception escaping a worker function ...) - a harness error"""
+
+
+class SchedulerHang(SchedulerError):
+    """a step (or a bounded call) did not end within its real-time limit: the schedule could not be realised"""
 
 
 class _Abort(BaseException):
     """unwinds a worker thread (deadlock / hang); deliberately not an Exception so that the code under test cannot swallow it"""
 
 
+_CURRENT: list = [None]          # the Baton whose step is running in this process (one at a time)
+
+
+def _role():
+    """-> (running Baton, 'T'|'R') for a thread that takes part in the running step, else (None, 'main')"""
+    s = _CURRENT[0]
+    if s is not None:
+        r = s._ids.get(threading.get_ident())
+        if r is not None:
+            return s, r
+    return None, "main"
+
+
 class BatonLock:
-    """Drop-in for threading.Lock().  Outside a scheduler run it is a plain non-blocking owner flag (single thread)."""
+    """Drop-in for threading.Lock().  Outside a scheduler step it is a plain owner flag (single thread)."""
+
+    reentrant = False
 
     def __init__(self):
         self.owner: str | None = None
-        self.sched: "Baton | None" = None
+        self.depth = 0
         self.acquired = 0
 
     def acquire(self, blocking: bool = True, timeout: float = -1) -> bool:
-        s = self.sched
-        if s is None:
-            if self.owner is not None:
-                raise SchedulerError("BatonLock re-acquired outside a scheduler run (owner %r)" % self.owner)
-            self.owner = "main"
-            self.acquired += 1
-            return True
-        me = s.me()
+        s, me = _role()
         while self.owner is not None:
             if self.owner == me:
+                if self.reentrant:
+                    self.depth += 1
+                    return True
+                if s is None:
+                    raise SchedulerError("non-reentrant lock re-acquired by the thread that holds it, outside a scheduler step")
                 s.deadlock = "%s re-acquires the non-reentrant lock it holds" % me
                 raise _Abort()
             if not blocking:
                 return False
-            s.blocked_on_lock(me)
+            if s is None:
+                raise SchedulerError("lock owned by %r requested by %r outside a scheduler step" % (self.owner, me))
+            s.blocked_on_lock(me, self)
         self.owner = me
+        self.depth = 1
         self.acquired += 1
+        if s is not None:
+            s.touched.add(self)
         return True
 
     def release(self) -> None:
         if self.owner is None:
             raise RuntimeError("release unlocked lock")
-        self.owner = None
+        self.depth -= 1
+        if self.depth <= 0:
+            self.owner = None
+            self.depth = 0
 
     def locked(self) -> bool:
         return self.owner is not None
@@ -83,6 +120,55 @@ class BatonLock:
         self.release()
         return False
 
+    # used by threading.Condition if the code under test wraps the lock in one (not modelled further)
+    def _is_owned(self):
+        return self.owner == _role()[1]
+
+
+class BatonRLock(BatonLock):
+    reentrant = True
+
+
+class _ThreadingProxy(types.ModuleType):
+    """`threading` as seen by a module of the package under test: Lock / RLock are baton locks, the rest is the real module"""
+
+    def __init__(self):
+        super().__init__("threading")
+        self.Lock = BatonLock
+        self.RLock = BatonRLock
+
+    def __getattr__(self, name):
+        return getattr(threading, name)
+
+
+_THREADING_PROXY = _ThreadingProxy()
+_patch_state = {"n_modules": -1}
+
+
+def patch_lock_factories(package: str) -> int:
+    """Replace the names Lock / RLock / threading in all loaded modules of `package` (cheap; call again after imports)."""
+    if _patch_state["n_modules"] == len(sys.modules):
+        return 0
+    n = 0
+    for name, mod in list(sys.modules.items()):
+        if mod is None or not (name == package or name.startswith(package + ".")):
+            continue
+        d = getattr(mod, "__dict__", None)
+        if d is None:
+            continue
+        for k, v in list(d.items()):
+            if v is _REAL_LOCK:
+                d[k] = BatonLock
+                n += 1
+            elif v is _REAL_RLOCK:
+                d[k] = BatonRLock
+                n += 1
+            elif v is threading:
+                d[k] = _THREADING_PROXY
+                n += 1
+    _patch_state["n_modules"] = len(sys.modules)
+    return n
+
 
 class Baton:
     """One interleaved execution of t_fn (thread T) and r_fn (thread R) under the schedule `switches`.
@@ -93,7 +179,8 @@ class Baton:
                              is running without depending on the source text of the caller.
     """
 
-    WAIT_S = 60.0
+    WAIT_S = 30.0          # a parked thread waits at most this long for the baton
+    STEP_LIMIT_S = 60.0    # the caller waits at most this long for the whole step
 
     def __init__(self, switches, prefix: str, phase_fn: Callable[[Any], str] | None = None, profile: bool = False,
                  max_events: int = 400_000, locks: tuple = (), call_fn: Callable[[Any], None] | None = None):
@@ -105,16 +192,17 @@ class Baton:
         self.phase_fn = phase_fn
         self.profile = profile
         self.max_events = max_events
-        self.locks = locks
-        self.call_fn = call_fn                       # called with the new frame for every function entered by thread T
+        self.touched: set = set(locks)               # baton locks acquired during the step (released after an abort)
+        self.call_fn = call_fn
         self.n = 0                                   # next global event index
         self.count = {"T": 0, "R": 0}                # events per thread
         self._sw_i = 0
         self._next = sw[0] if sw else -1
         self._go: dict = {}                          # baton semaphores, set by run()
-        self._r_finished = threading.Semaphore(0)
+        self._all_done = threading.Semaphore(0)
         self.done = {"T": False, "R": False}
         self.started = {"T": False, "R": False}
+        self.waiting: dict = {"T": None, "R": None}  # lock a thread is blocked on
         self._ids: dict[int, str] = {}
         self.result: dict[str, Any] = {}
         self.error: dict[str, BaseException] = {}
@@ -131,7 +219,7 @@ class Baton:
 
     # -- identity -------------------------------------------------------------------------------
     def me(self) -> str:
-        return self._ids[threading.get_ident()]
+        return self._ids.get(threading.get_ident(), "main")
 
     # -- baton ----------------------------------------------------------------------------------
     def _handoff(self, me: str) -> None:
@@ -165,13 +253,22 @@ class Baton:
         self._handoff(me)
         self._close_open_switch(me)
 
-    def blocked_on_lock(self, me: str) -> None:
+    def blocked_on_lock(self, me: str, lock=None) -> None:
         other = OTHER[me]
         if self.done[other]:
             self.deadlock = "%s waits for a lock whose owner %s has finished" % (me, other)
             raise _Abort()
+        if self.waiting[other] is not None:
+            self.deadlock = "%s and %s wait for locks held by each other" % (me, other)
+            raise _Abort()
+        if me == "T" and self.phase_fn is not None:
+            self.t_phase = self.phase_fn(None)
         self.lock_blocks.append((me, self.n, self.t_phase))
-        self._handoff(me)
+        self.waiting[me] = lock
+        try:
+            self._handoff(me)
+        finally:
+            self.waiting[me] = None
 
     # -- tracing --------------------------------------------------------------------------------
     def _tracer(self, name: str):
@@ -206,77 +303,69 @@ class Baton:
 
         return glob
 
-    def _finish(self, name: str) -> None:
-        self.done[name] = True
-        for lk in self.locks:
-            if lk.owner == name:         # only after an abort; a normal `with` has released it
-                lk.owner = None
-
-    def _body_r(self, fn: Callable[[], Any]) -> None:
-        """runs on the persistent request thread once the baton is first handed to R"""
+    def _body(self, name: str, fn: Callable[[], Any]) -> None:
+        """runs on the persistent worker thread of `name` once the baton is first handed to it"""
+        other = OTHER[name]
         try:
-            self.started["R"] = True
-            if self.t_events_at_r_start is None:
+            self.started[name] = True
+            if name == "R" and self.t_events_at_r_start is None:
                 self.t_events_at_r_start = self.count["T"]
-            sys.settrace(self._tracer("R"))
+            sys.settrace(self._tracer(name))
             try:
-                self.result["R"] = fn()
+                self.result[name] = fn()
             finally:
                 sys.settrace(None)
         except _Abort:
             pass
         except BaseException as ex:      # not swallowed: re-raised by run() in the caller's thread as SchedulerError
-            self.error["R"] = ex
+            self.error[name] = ex
         finally:
-            self._finish("R")
-            if not self.done["T"]:
-                self._go["T"].release()
-            self._r_finished.release()
+            self.done[name] = True
+            for lk in list(self.touched):
+                if lk.owner == name:     # only after an abort; a normal `with` has released it
+                    lk.owner, lk.depth = None, 0
+            if name == "T":
+                self.r_mid_request_at_t_end = self.started["R"] and not self.done["R"]
+            if not self.done[other]:
+                self._go[other].release()        # the other one starts, or resumes, and runs to its end
+            else:
+                self._all_done.release()
 
     def run(self, t_fn: Callable[[], Any], r_fn: Callable[[], Any]) -> "Baton":
-        """T runs on the calling thread, R on a persistent worker thread (fewer OS wake-ups per schedule than two fresh
-        threads: one per baton hand-over)."""
-        for lk in self.locks:
+        if _CURRENT[0] is not None:
+            raise SchedulerError("a scheduler step is already running in this process")
+        for lk in self.touched:
             if lk.owner is not None:
                 raise SchedulerError("lock held at the start of an interleaved step")
-        w = _worker()
-        self._go = {"T": threading.Semaphore(0), "R": w.sem}
-        self._r_finished = threading.Semaphore(0)
-        self._ids = {threading.get_ident(): "T", w.thread.ident: "R"}
-        for lk in self.locks:
-            lk.sched = self
-        w.job = lambda: self._body_r(r_fn)
-        old_trace = sys.gettrace()
+        wt, wr = _worker("T"), _worker("R")
+        self._go = {"T": wt.sem, "R": wr.sem}
+        self._ids = {wt.thread.ident: "T", wr.thread.ident: "R"}
+        wt.job = lambda: self._body("T", t_fn)
+        wr.job = lambda: self._body("R", r_fn)
         ok = False
         # no cyclic garbage collection while lines are being counted: finalisers of earlier engines (generators of dead
         # interpreters run their `finally` blocks in openpectus code) would otherwise show up in the event stream at
         # allocation-dependent positions and make switch indices depend on the history of the process
         gc_was_enabled = gc.isenabled()
         gc.disable()
+        _CURRENT[0] = self
         try:
-            self.started["T"] = True
-            try:
-                sys.settrace(self._tracer("T"))
-                try:
-                    self.result["T"] = t_fn()
-                finally:
-                    sys.settrace(old_trace)
-            except _Abort:
-                pass
-            self._finish("T")
-            self.r_mid_request_at_t_end = self.started["R"] and not self.done["R"]
-            if not self.done["R"]:
-                self._go["R"].release()          # R starts, or resumes, and runs to its end
-            ok = self._r_finished.acquire(timeout=self.WAIT_S * 2)
+            self._go["T"].release()
+            ok = self._all_done.acquire(timeout=self.STEP_LIMIT_S)
         finally:
+            _CURRENT[0] = None
             if not ok:
-                _discard_worker(w)               # the request thread is stuck or in an unknown state: never reuse it
-            for lk in self.locks:
-                lk.sched = None
+                _discard_worker(wt)              # stuck or in an unknown state: never reused
+                _discard_worker(wr)
             if gc_was_enabled:
                 gc.enable()
-        if not ok or self.hung:
-            raise SchedulerError("scheduler hang (events=%d, switches=%r)" % (self.n, self.switches))
+        if not ok:
+            raise SchedulerHang("the interleaved step did not end within %.0f s (events=%d, switches=%r, started=%r, done=%r)"
+                                % (self.STEP_LIMIT_S, self.n, self.switches, self.started, self.done))
+        if self.hung:
+            _discard_worker(wt)
+            _discard_worker(wr)
+            raise SchedulerHang("a parked thread did not get the baton back (events=%d, switches=%r)" % (self.n, self.switches))
         if self.error:
             name, ex = sorted(self.error.items())[0]
             raise SchedulerError("exception escaped worker %s: %r" % (name, ex)) from ex
@@ -288,14 +377,15 @@ class Baton:
 
 
 class _Worker:
-    """the persistent request thread of this process; woken by the first hand-over of the baton to R"""
+    """a persistent worker thread of this process; woken by the first hand-over of the baton to its role"""
 
-    def __init__(self):
+    def __init__(self, role: str):
         self.pid = os.getpid()
+        self.role = role
         self.sem = threading.Semaphore(0)
         self.job: Callable[[], Any] | None = None
         self.dead = False
-        self.thread = threading.Thread(target=self._loop, name="baton-R", daemon=True)
+        self.thread = threading.Thread(target=self._loop, name="baton-" + role, daemon=True)
         self.thread.start()
 
     def _loop(self):
@@ -307,20 +397,41 @@ class _Worker:
             del job      # do not keep the finished step (engine, interpreter generators) alive into the next one
 
 
-_the_worker: list = [None]
+_the_workers: dict = {"T": None, "R": None}
 
 
-def _worker() -> _Worker:
-    w = _the_worker[0]
+def _worker(role: str) -> _Worker:
+    w = _the_workers[role]
     if w is None or w.dead or w.pid != os.getpid() or not w.thread.is_alive():
-        w = _the_worker[0] = _Worker()
+        w = _the_workers[role] = _Worker(role)
     return w
 
 
 def _discard_worker(w: _Worker) -> None:
     w.dead = True
-    if _the_worker[0] is w:
-        _the_worker[0] = None
+    if _the_workers[w.role] is w:
+        _the_workers[w.role] = None
 
 
-__all__ = ["Baton", "BatonLock", "SchedulerError"]
+def run_bounded(fn: Callable[[], Any], limit_s: float, what: str = "call") -> Any:
+    """fn() on a daemon thread; SchedulerHang if it has not returned after limit_s seconds of real time (the thread is
+    abandoned).  An exception of fn is re-raised in the caller."""
+    box: dict = {}
+
+    def target():
+        try:
+            box["v"] = fn()
+        except BaseException as ex:      # handed to the caller, not swallowed
+            box["ex"] = ex
+
+    t = threading.Thread(target=target, name="bounded-" + what, daemon=True)
+    t.start()
+    t.join(limit_s)
+    if t.is_alive():
+        raise SchedulerHang("%s did not return within %.0f s" % (what, limit_s))
+    if "ex" in box:
+        raise box["ex"]
+    return box.get("v")
+
+
+__all__ = ["Baton", "BatonLock", "BatonRLock", "SchedulerError", "SchedulerHang", "patch_lock_factories", "run_bounded"]
